@@ -3,7 +3,7 @@
     Run from the directory that should receive model.ml / model.mli. *)
 From Coq Require Import ExtrOcamlBasic.
 From Coq Require Import List NArith ZArith.
-From WB Require Import Num Base Props World Kernels Features Plume Bezier Apps Dat Grid SlabSpec SlabModel SlabFeature BezierSph.
+From WB Require Import Num Base Props World Kernels Features Plume Bezier Apps Dat Grid SlabSpec SlabModel SlabFeature BezierSph Quat.
 
 Extraction Language OCaml.
 Extraction "model.ml"
@@ -17,4 +17,5 @@ Extraction "model.ml"
   cells2 cells3 filter_mesh
   planar_distance slab_member fault_member
   distance_point_from_curved_planes line_to_feature lf_distances lf_covers line_of_layout line_of_layout_gen distance_point_from_curved_planes_sph
+  euler_matrix
   parallel_for dat_options_of dat_properties dat_header dat_row dat_row_accepted col_cell.
